@@ -113,7 +113,7 @@ def c06(run):
     run.trace("history", Q(run, 1, 10), seed_off=500, poison=1, small=True)
     # the same histories by 16 goroutines at once, all types mixed (pad bytes, byte orders and checksum algorithms differ between them): what an
     # encode appends may not depend on what other goroutines encode at the same time - judged on the results of the calls only
-    run.parallel("history", Q(run, 1, 6), goroutines=16, rounds=Q(run, 3, 6), seed_off=600, race_filter="RESULTS-ONLY", prop_clauses="C06", abort_violates=False, small=True)
+    run.parallel("history", Q(run, 1, 6), goroutines=16, rounds=Q(run, 3, 6), seed_off=600, race_filter="RESULTS-ONLY", hammer=Q(run, 6, 24), prop_clauses="C06", abort_violates=False, small=True)
     return run.finish(RULE_WIRE + RULE_TRACE + RULE_POISON)
 
 
@@ -150,7 +150,7 @@ def c09(run):
     run.judge(path, st, "hostile-prims")
     # refusals by several goroutines at once (unregistered keys of every frame table): the plain build, several processes
     for k in range(Q(run, 4, 12)):
-        run.parallel("unknown-storm", 1, goroutines=16, rounds=1, race_filter="RESULTS-ONLY", prop_clauses="C09", race=False, seed_off=900 + k)
+        run.parallel("unknown-storm", 1, goroutines=16, rounds=1, race_filter="RESULTS-ONLY", hammer=Q(run, 6, 24), prop_clauses="C09", race=False, seed_off=900 + k)
     run.assumptions += ["totality of the Go decoders is sampled, not proved", "abort = the child process died under ulimit -v 1.5 GiB; hang = a call did not return after 2 s + 1 us/byte of CPU time of its process (or 30x that in wall-clock time)"]
     return run.finish(RULE_HOSTILE)
 
@@ -212,7 +212,7 @@ def c15(run):
 def c16(run):
     run.trace("alias", Q(run, 3, 150))
     # caches and intern tables behave differently under contention: the same histories by 16 goroutines at once (judged on the results only)
-    run.parallel("alias", Q(run, 1, 10), goroutines=16, rounds=Q(run, 2, 4), seed_off=100, race_filter="RESULTS-ONLY", prop_clauses="C16", abort_violates=False)
+    run.parallel("alias", Q(run, 1, 10), goroutines=16, rounds=Q(run, 2, 4), seed_off=100, race_filter="RESULTS-ONLY", hammer=Q(run, 6, 24), prop_clauses="C16", abort_violates=False)
     run.assumptions += ["aliasing is detected through observable value change only"]
     return run.finish(RULE_TRACE)
 
@@ -223,8 +223,8 @@ def c17(run):
     run.trace("list-counts", Q(run, 1, 2), seed_off=200, chunk=120)
     run.trace("encode-any", Q(run, 1, 20), seed_off=300, poison=2, small=True)
     # encoders of all protocols at once (shared look-ups on the way): a panic or a process abort is this property's, a race is C20's
-    run.parallel("encode-any", Q(run, 2, 20), goroutines=16, rounds=Q(run, 3, 6), seed_off=400, race_filter="RESULTS-ONLY", prop_clauses="C17")
-    run.parallel("encode-any", Q(run, 40, 200), goroutines=16, rounds=Q(run, 4, 8), seed_off=500, race_filter="RESULTS-ONLY", prop_clauses="C17", types=FRAMES5, small=True)
+    run.parallel("encode-any", Q(run, 2, 20), goroutines=16, rounds=Q(run, 3, 6), seed_off=400, race_filter="RESULTS-ONLY", hammer=Q(run, 6, 24), prop_clauses="C17")
+    run.parallel("encode-any", Q(run, 40, 200), goroutines=16, rounds=Q(run, 4, 8), seed_off=500, race_filter="RESULTS-ONLY", hammer=Q(run, 6, 24), prop_clauses="C17", types=FRAMES5, small=True)
     return run.finish(RULE_TRACE + RULE_POISON)
 
 
@@ -253,7 +253,7 @@ def c03(run):
     # every length / count 0..1100 of every prefixed primitive (incl. the length of a text-list element), both orders
     run.trace("prim-sweep", Q(run, 1, 2), seed_off=500, chunk=600)
     # the same pairs by 16 goroutines at once, each on its own buffers (a fallback path taken only under contention): results only
-    run.parallel("prim-pairs", Q(run, 1, 4), goroutines=16, rounds=Q(run, 3, 6), seed_off=600, race_filter="RESULTS-ONLY", prop_clauses="C03", abort_violates=False, small=True)
+    run.parallel("prim-pairs", Q(run, 1, 4), goroutines=16, rounds=Q(run, 3, 6), seed_off=600, race_filter="RESULTS-ONLY", hammer=Q(run, 6, 24), prop_clauses="C03", abort_violates=False, small=True)
     return run.finish(RULE_PRIMMODEL + RULE_PRIM + RULE_TRACE + RULE_POISON)
 
 
@@ -267,7 +267,7 @@ def c13(run):
     # lying across the end of the field): the rendering may not differ from the pinned one inside a fixed-width text field
     run.trace("roundtrip-wild", Q(run, 6, 100), seed_off=400, small=True)
     # the same calls by 16 goroutines at once, each on its own buffer, pad bytes and sides mixed: judged on the results of the calls only
-    run.parallel("prim-fixed", Q(run, 2, 20), goroutines=16, rounds=Q(run, 3, 6), seed_off=300, race_filter="RESULTS-ONLY", prop_clauses="C13", abort_violates=False)
+    run.parallel("prim-fixed", Q(run, 2, 20), goroutines=16, rounds=Q(run, 3, 6), seed_off=300, race_filter="RESULTS-ONLY", hammer=Q(run, 6, 24), prop_clauses="C13", abort_violates=False)
     return run.finish(RULE_PRIMMODEL + RULE_PRIM + "Widths 0..5,10,16,200; pads 00,20,30,80,E9,FF and a random one; both sides; texts of length 0..N+2 over {pad,00,20,41,C3,A9,FF,30} and random bytes; lists of widths 1,3,8,10,16 with counts 0..64, around every multiple of 128 up to 2048, the multiples of 100 up to 2000, 4096, 8192 (thorough: up to 65535), written over stale spare capacity.")
 
 
@@ -276,7 +276,7 @@ def c14(run):
     run.trace("calc-giant", Q(run, 1, 2), seed_off=100)
     run.trace("calc-reuse", Q(run, 1, 6), seed_off=150)
     # the services are shared objects: the same calls by 16 goroutines at once, each on its own buffer (judged on the results only)
-    run.parallel("calc", 1, goroutines=16, rounds=Q(run, 2, 6), seed_off=300, race_filter="RESULTS-ONLY", prop_clauses="C14", abort_violates=False)
+    run.parallel("calc", 1, goroutines=16, rounds=Q(run, 2, 6), seed_off=300, race_filter="RESULTS-ONLY", hammer=Q(run, 6, 24), prop_clauses="C14", abort_violates=False)
     if run.tier == "thorough":
         run.trace("calc-exhaustive2", 1, seed_off=200, chunk=20000)
     return run.finish(RULE_PRIM + "All strings of <= 1 byte, 2-byte strings over a 32-symbol boundary alphabet (all 65,536 in the thorough tier), 3-byte strings over 8 symbols, "
